@@ -5,7 +5,7 @@ from __future__ import annotations
 import itertools
 
 from sa import term as T
-from sa.interp import FuncRef, Interp
+from sa.interp import FuncRef, Interp, SVar
 from sa.kernel import P, make_param, run_kernel, specs_for
 from sa.load import AnalysisError, Repo, loc
 from sa.report import Run
@@ -97,6 +97,20 @@ def run(tier: str) -> Run:
         cond_ok = (eq_term(cond, want_cond) and nan_first) or (eq_term(cond, T.fn_cmp('>', dt, Rat.const(0))) and not nan_first)
         nan_arm_ok = eq_term(a if nan_first else b, nan)
         pole_ok = (value * dt**2).den is T.ONE_P
+        # the guard has to look at the very number that is divided by: every subtraction (the only way a divisor can become
+        # zero) in the provenance of the value arm must be in the provenance of the condition - a guard on another rounding
+        # of the same mathematical quantity lets dt == 0 through
+        same_number = True
+        wh = [e for e in events(out, 'where')]
+        if wh:
+            d = wh[-1].detail
+            arms = d['x'] | d['y']
+            divs = [h[0] for h in arms if h[1] == 'div']
+            last_div = max(divs) if divs else -1
+            # differences computed before the (last) division: what is divided by; the final Ei - Ef comes after it
+            subs = {h for h in arms if h[1] in ('sub', 'add') and h[0] < last_div}
+            same_number = {h[0] for h in subs} <= {h[0] for h in d['cond']}
+        cond_ok = cond_ok and same_number
         r3.check(cond_ok and nan_arm_ok and pole_ok, name, loc(fi),
                  {'condition': T.show(cond), 'expected_condition': T.show(want_cond),
                   'nan_is_selected_where_condition_holds': nan_first,
@@ -110,6 +124,15 @@ def run(tier: str) -> Run:
             if any(o.kind == 'raise' for o in o2):
                 dt_ok = False
                 probs.append({'dtypes': d, 'raises': [o.exc_type + ' ' + (o.where or '') for o in o2 if o.kind == 'raise']})
+            for o in o2:
+                # the unit of the supplied energy, whatever the precision of the operands
+                if o.kind == 'return' and isinstance(o.value, SVar) and o.value.unit != Unit.param(efix):
+                    unit_ok = False
+                    probs.append({'dtypes': d, 'result_unit': repr(o.value.unit), 'documented': f'unit of {efix}'})
+                want_dt = 'float32' if d == ('float32', 'float32') else 'float64'
+                if o.kind == 'return' and isinstance(o.value, SVar) and o.value.dtype != want_dt:
+                    dt_ok = False
+                    probs.append({'dtypes': d, 'result_dtype': o.value.dtype, 'documented': want_dt})
         r4.check(unit_ok and dt_ok and not probs, name, loc(fi),
                  {'result_unit': repr(out.value.unit), 'problems': probs[:3]}, key=name)
 
